@@ -320,3 +320,29 @@ def zero_test(test: ast.AST, var: str):
         if (var, ">", z) in views or (var, "!=", z) in views:
             return "nonzero"
     return None
+
+
+def arg_nodes(call: ast.Call) -> dict:
+    """{parameter name: argument node}: keywords, plus — when the callee's signature is known — the positional arguments by parameter."""
+    b = bound_args(call)
+    if b is not None:
+        return {k: v for k, v in b.items() if not k.startswith("#")}
+    return {k.arg: k.value for k in call.keywords if k.arg}
+
+
+def arg_texts(call: ast.Call) -> dict:
+    return {k: ast.unparse(v) for k, v in arg_nodes(call).items()}
+
+
+def ordered_args(call: ast.Call):
+    """the argument nodes in parameter order, whichever way they were passed (positional arguments, then — when the callee's signature is
+    known — the keyword arguments that continue the positional parameters); keywords that cannot be placed are left out."""
+    out = list(call.args)
+    ps = call_params(call)
+    if ps is not None:
+        kws = {k.arg: k.value for k in call.keywords if k.arg}
+        i = len(out)
+        while i < len(ps) and ps[i] in kws:
+            out.append(kws[ps[i]])
+            i += 1
+    return out
